@@ -70,6 +70,18 @@ def gen_prefixed(rng):
     return s, "mutated-prefix"
 
 
+def len_oid_text(rng, L):
+    """Dotted text of a valid OID whose X.690 content is exactly L octets long (L >= 1)."""
+    arcs, left = [1, 3], L - 1
+    while left > 0:
+        k = rng.choice([k for k in (1, 1, 1, 2, 3, 5) if k <= left])
+        lo = 0 if k == 1 else 1 << (7 * (k - 1))
+        hi = min((1 << (7 * k)) - 1, U32)
+        arcs.append(rng.randrange(lo, hi + 1))
+        left -= k
+    return ".".join(str(a) for a in arcs)
+
+
 def gen_string(rng):
     """-> (string, class)"""
     r = rng.random()
@@ -244,11 +256,12 @@ def worker(job):
     drv = driver.Driver(cfg, agent, timeout=2.0).create()
     drv.call("open")
     ops = ["get", "get_many", "getnext", "getbulk", "fetch"]
-    for i in range(job["n"]):
-        s, cls = gen_string(rng)
-        if "\x00" in s or not s.isprintable() and rng.random() < 0.5:
-            pass
-        op = ops[i % len(ops)]
+    todo = [gen_string(rng) + (None,) for _ in range(job["n"])]
+    # every encoded length: an OID of exactly L content octets (1-, 2-, 3- and 5-octet arcs mixed) through each entry point
+    for L, sop in job.get("sweep", []):
+        todo.append((len_oid_text(rng, L), "len:%d" % (L // 32), sop))
+    for i, (s, cls, sop) in enumerate(todo):
+        op = sop or ops[i % len(ops)]
         if op == "getbulk" and cfg.version == "v1":
             op = "getnext"
         box["reqs"], box["walk_served"] = [], False
@@ -314,7 +327,9 @@ def worker(job):
 
 def rig_p(chk, tier, seed):
     n = 220 if tier == "quick" else 6000
-    jobs = [{"seed": seed * 613 + i, "cfg": c.to_json(), "n": n} for i, c in enumerate(rigp.base_cfgs(("sync", "async")))]
+    cfgs = rigp.base_cfgs(("sync", "async"))
+    pairs = [(L, op) for L in range(1, 301 if tier == "quick" else 1025) for op in ("get", "get_many", "getnext", "getbulk", "fetch")]
+    jobs = [{"seed": seed * 613 + i, "cfg": c.to_json(), "n": n, "sweep": pairs[(i + seed) % len(cfgs)::len(cfgs)]} for i, c in enumerate(cfgs)]
     outs = runner.run_workers("checks.c08", "worker", jobs, variant="rel", timeout=3000)
     st = {"cases": 0, "sent": 0, "refused": 0}
     for o in outs:
